@@ -177,39 +177,99 @@ theorem encPayload_pos {s s' : St} {ans : Ans} {w0 w : Writer} {hdr : Nat} {il f
     | (simp only [Out.ok.injEq, Prod.mk.injEq] at h; obtain ⟨rfl, rfl⟩ := h; simp_all; done)
     | (simp at h; done)
 
-theorem encodeData_frame {o : Oracle} {s s' : St} {site : Nat} {il ff res : Bool} {req : Req}
+theorem encRest_frame {m : St × Writer × Nat} {ans : Ans} {w0 : Writer} {bytes : Nat} {il ff res : Bool} {s' : St}
+    (h : encRest m ans w0 bytes il ff = .ok (s', res)) :
+    s'.frame = m.1.frame ∧ res = true ∧ s'.isLastBlockEmitted = m.1.isLastBlockEmitted
+    ∧ s'.storageSize = m.1.storageSize ∧ s'.totalOut = m.1.totalOut ∧ s'.nEnc = m.1.nEnc := by
+  unfold encRest at h
+  split at h
+  · simp at h
+  · simp at h
+  · rename_i s2 w hdr hpre
+    obtain ⟨p1, p2, _, p4, p5, p6⟩ := encPrelude_frame hpre
+    obtain ⟨q1, q2, q3, q4, q5, q6, _⟩ := encPayload_frame h
+    exact ⟨q1.trans p1, q2, q3.trans p2, q4.trans p4, q5.trans p5, q6.trans p6⟩
+
+/-- the state `encode_data` hands to the magic-block step -/
+def encEntry (s : St) (il : Bool) : St := growStorage (encStart s il) (wantStorage s)
+
+theorem encEntry_fields (s : St) (il : Bool) :
+    (encEntry s il).frame = s.frame ∧ (encEntry s il).lastFlushPos = s.lastFlushPos
+    ∧ (encEntry s il).lastProcessedPos = s.lastProcessedPos
+    ∧ (encEntry s il).isLastBlockEmitted = (s.isLastBlockEmitted || il)
+    ∧ (encEntry s il).pending = s.pending ∧ (encEntry s il).nextOut = s.nextOut
+    ∧ (encEntry s il).isFirstMb = s.isFirstMb ∧ (encEntry s il).lastBytes = s.lastBytes
+    ∧ (encEntry s il).lastBytesBits = s.lastBytesBits ∧ (encEntry s il).totalOut = s.totalOut
+    ∧ (encEntry s il).nEnc = s.nEnc + 1 ∧ s.storageSize ≤ (encEntry s il).storageSize
+    ∧ wantStorage s ≤ (encEntry s il).storageSize := by
+  obtain ⟨g1, g2, g3, g4, g5, g6, g7, g8, g9, g10, g11, g12, g13⟩ := growStorage_frame (encStart s il) (wantStorage s)
+  unfold encEntry
+  refine ⟨?_, ?_, ?_, ?_, ?_, ?_, ?_, ?_, ?_, ?_, ?_, ?_, g13⟩
+  · rw [g1]; simp [St.frame, encStart]
+  · rw [g2]; simp [encStart]
+  · rw [g3]; simp [encStart]
+  · rw [g4]; simp [encStart]
+  · rw [g5]; simp [encStart]
+  · rw [g6]; simp [encStart]
+  · rw [g7]; simp [encStart]
+  · rw [g8]; simp [encStart]
+  · rw [g9]; simp [encStart]
+  · rw [g10]; simp [encStart]
+  · rw [g11]; simp [encStart]
+  · simpa [encStart] using g12
+
+/-- the three ways `encodeData` can return a value -/
+theorem encodeData_ok_cases {o : Oracle} {s s' : St} {site : Nat} {il ff res : Bool} {req : Req}
     (h : encodeData o s site il ff = .ok (s', res, req)) :
-    s'.frame = s.frame ∧ req = reqOf s site il ff ∧ s'.totalOut = s.totalOut ∧ s'.nEnc = s.nEnc + 1
-    ∧ s.storageSize ≤ s'.storageSize := by
+    req = reqOf s site il ff ∧
+    ((s.isLastBlockEmitted = true ∧ res = false ∧ s' = encFail s (o s.nEnc (reqOf s site il ff)) false) ∨
+     (s.isLastBlockEmitted = false ∧ s.unprocessed > s.blockSize ∧ res = false ∧ s' = encFail s (o s.nEnc (reqOf s site il ff)) il) ∨
+     (s.isLastBlockEmitted = false ∧ ¬ s.unprocessed > s.blockSize ∧
+       encRest (encMagic (encEntry s il) s.carry) (o s.nEnc (reqOf s site il ff)) s.carry (s.unprocessed % two32) il ff = .ok (s', res))) := by
   unfold encodeData at h
   split at h
-  · simp only [Out.ok.injEq, Prod.mk.injEq] at h; obtain ⟨rfl, rfl, rfl⟩ := h; simp [St.frame, encFail]
-  · split at h
-    · simp only [Out.ok.injEq, Prod.mk.injEq] at h; obtain ⟨rfl, rfl, rfl⟩ := h; simp [St.frame, encFail]
-    · split at h
+  · rename_i h1
+    simp only [Out.ok.injEq, Prod.mk.injEq] at h; obtain ⟨rfl, rfl, rfl⟩ := h
+    exact ⟨rfl, Or.inl ⟨h1, rfl, rfl⟩⟩
+  · rename_i h1
+    have h1' : s.isLastBlockEmitted = false := by simpa using h1
+    split at h
+    · rename_i h2
+      simp only [Out.ok.injEq, Prod.mk.injEq] at h; obtain ⟨rfl, rfl, rfl⟩ := h
+      exact ⟨rfl, Or.inr (Or.inl ⟨h1', h2, rfl, rfl⟩)⟩
+    · rename_i h2
+      split at h
       · simp at h
       · split at h
         · simp at h
         · simp at h
-        · rename_i s2 w hdr hpre
-          split at h
-          · simp at h
-          · simp at h
-          · rename_i s3 r3 hpay
-            simp only [Out.ok.injEq, Prod.mk.injEq] at h
-            obtain ⟨rfl, rfl, rfl⟩ := h
-            have h1 := encPrelude_frame hpre
-            have h2 := encPayload_frame hpay
-            have h3 := encMagic_frame (growStorage (encStart s il) (wantStorage s)) (bitsOf s.lastBytesBits s.lastBytes)
-            have h4 := growStorage_frame (encStart s il) (wantStorage s)
-            obtain ⟨p1, _, _, p4, p5, p6⟩ := h1
-            obtain ⟨q1, _, _, q4, q5, q6, _⟩ := h2
-            obtain ⟨m1, _, _, _, _, m6, m7, m8⟩ := h3
-            obtain ⟨g1, _, _, _, _, _, _, _, _, g10, g11, g12, _⟩ := h4
-            refine ⟨?_, rfl, ?_, ?_, ?_⟩
-            · rw [q1, p1, m1, g1]; simp [St.frame, encStart]
-            · rw [q5, p5, m7, g10]; simp [encStart]
-            · rw [q6, p6, m8, g11]; simp [encStart]
-            · rw [q4, p4, m6]; simpa [encStart] using g12
+        · rename_i s3 r3 hrest
+          simp only [Out.ok.injEq, Prod.mk.injEq] at h
+          obtain ⟨rfl, rfl, rfl⟩ := h
+          exact ⟨rfl, Or.inr (Or.inr ⟨h1', h2, hrest⟩)⟩
+
+theorem encFail_fields (s : St) (a : Ans) (l : Bool) :
+    (encFail s a l).frame = s.frame ∧ (encFail s a l).lastFlushPos = s.lastFlushPos
+    ∧ (encFail s a l).lastProcessedPos = s.lastProcessedPos ∧ (encFail s a l).pending = s.pending
+    ∧ (encFail s a l).nextOut = s.nextOut ∧ (encFail s a l).lastBytes = s.lastBytes
+    ∧ (encFail s a l).lastBytesBits = s.lastBytesBits ∧ (encFail s a l).storageSize = s.storageSize
+    ∧ (encFail s a l).isLastBlockEmitted = (s.isLastBlockEmitted || l) ∧ (encFail s a l).totalOut = s.totalOut
+    ∧ (encFail s a l).isFirstMb = s.isFirstMb ∧ (encFail s a l).nEnc = s.nEnc + 1 := by
+  simp [encFail, St.frame]
+
+theorem encodeData_frame {o : Oracle} {s s' : St} {site : Nat} {il ff res : Bool} {req : Req}
+    (h : encodeData o s site il ff = .ok (s', res, req)) :
+    s'.frame = s.frame ∧ req = reqOf s site il ff ∧ s'.totalOut = s.totalOut ∧ s'.nEnc = s.nEnc + 1
+    ∧ s.storageSize ≤ s'.storageSize := by
+  obtain ⟨hreq, hc⟩ := encodeData_ok_cases h
+  rcases hc with ⟨_, _, rfl⟩ | ⟨_, _, _, rfl⟩ | ⟨_, _, hrest⟩
+  · obtain ⟨f1, _, _, _, _, _, _, f8, _, f10, _, f12⟩ := encFail_fields s (o s.nEnc (reqOf s site il ff)) false
+    exact ⟨f1, hreq, f10, f12, by omega⟩
+  · obtain ⟨f1, _, _, _, _, _, _, f8, _, f10, _, f12⟩ := encFail_fields s (o s.nEnc (reqOf s site il ff)) il
+    exact ⟨f1, hreq, f10, f12, by omega⟩
+  · obtain ⟨r1, _, _, r4, r5, r6⟩ := encRest_frame hrest
+    obtain ⟨m1, _, _, _, _, m6, m7, m8⟩ := encMagic_frame (encEntry s il) s.carry
+    obtain ⟨e1, _, _, _, _, _, _, _, _, e10, e11, e12, _⟩ := encEntry_fields s il
+    exact ⟨r1.trans (m1.trans e1), hreq, r5.trans (m7.trans e10), r6.trans (m8.trans e11), by rw [r4, m6]; exact e12⟩
 
 end BV.Stream
